@@ -27,7 +27,25 @@ RULE = (
     "metamorphic oracle 'if the bytes decode to m then decode(encode(m)) == m and encode(decode(encode(m))) == encode(m)'; "
     "thorough additionally runs atheris (libFuzzer, coverage-guided) on each of the five dispatchers with that oracle, "
     "from an empty corpus and from the vectors (-runs, -seed=VERIF_SEED, fresh corpus directory); findings are replayed "
-    "without atheris."
+    "without atheris. (d) wire cases ('t': 'wire'): a real ServerConnection / PeerConnection (plain, obfuscated) connected "
+    "over the in-memory TCP layer to a scripted endpoint, whose transport applies write back pressure (drain() of a write "
+    "suspends for 0 / 0.5..50 ms, or for ever so that the library's 10 s write timeout closes the connection); 1..3 sender "
+    "tasks put 2..5 messages on that one connection, at least one frame larger than 64 KiB (PeerUserInfoReply picture, "
+    "PeerSharesReply of 2500..5000 files, big chat / search string, raw bytes frame; up to ~1 MiB plain, ~240 kB obfuscated), "
+    "the small ones fixed or drawn from the per-class strategies of (a): one after the other (send_message), concurrently "
+    "(asyncio.gather of send_message calls as in Network.send_peer_messages, queue_message, queue_messages, several tasks "
+    "that start k loop iterations / x ms apart), and with a sender cancelled by Task.cancel() / given up by "
+    "asyncio.wait_for k iterations / x ms after it started; when all senders are done one more message is sent if the "
+    "connection is still open. A deterministic grid (135 cases: connection x back pressure x 14 patterns + 3 write-timeout "
+    "patterns, big class and size rotating) plus Hypothesis cases. Oracle on the bytes the endpoint received, cut into "
+    "frames by the length prefix alone (obfuscated: reference de-obfuscation): every frame is the reference encoding "
+    "of one of the messages (compressed: code bytewise, payload after inflate), each message at most once; a send that "
+    "returned without error on a connection that was open before and after is on the wire exactly once; a message whose "
+    "send was never started is not on the wire; messages sent one after the other by one task keep their order; no "
+    "incomplete frame is followed by further bytes, and an incomplete last frame is accepted only when the library "
+    "itself closed the connection afterwards (write timeout) and the tail is the beginning of one message that is not whole on the wire. A "
+    "cancelled send may leave its whole frame or nothing. Wire cases are non-trivial when at least two whole frames, one "
+    "of them larger than 64 KiB, arrived."
 )
 ASSUMPTIONS = [
     "pinned/layout.json (extracted once from snapshot ddacc78, reviewed against MESSAGES.rst and validated against "
@@ -35,6 +53,11 @@ ASSUMPTIONS = [
     "encoder preconditions respected by the generator: non-optional fields never None; has_picture => picture not "
     "None; an absent optional is followed only by absent optionals",
     "compressed messages: any valid deflate stream is accepted by peers, so compressed bytes are not pinned",
+    "wire cases: the in-memory transport (vfw/simnet.MemTransport) hands every write() to the link at once and models "
+    "back pressure only through pause_writing()/resume_writing(), the way a selector transport does for the part of a "
+    "write that does not fit in the socket buffer; a caller that cancels a send keeps using the connection (HEAD keeps "
+    "it open after a cancelled send and closes it after its own 10 s write timeout: both are what the oracle pins); "
+    "no order is demanded between messages of different tasks or of one gather / queue_messages call",
 ]
 BUDGET_S = {'quick': 120, 'thorough': 1500}
 
@@ -233,23 +256,20 @@ def _in_domain(typ, v, subtype=None) -> bool:
     return False
 
 
-def run_msg_case(case, res: CaseResult):
-    import struct
-    key, values = case['key'], case['values']
-    if key not in wire_ref.BY_KEY:
-        return
-    m = wire_ref.BY_KEY[key]
-    group, name, kind = key.split(':')
-    fields = m['fields']
-    # sanitise (shrunk documents): every present field must hold a value
+def _values_in_domain(key, values) -> bool:
+    """Sanitiser for (shrunk / replayed) message documents: known class, every present field holds an in-domain
+    value, every absent field is None, the optional tail is prefix-closed."""
+    if key not in wire_ref.BY_KEY or not isinstance(values, dict):
+        return False
+    fields = wire_ref.BY_KEY[key]['fields']
     for f in fields:
         if f['name'] not in values:
-            return
+            return False
         if wire_ref.field_present(f, values):
             if not _in_domain(f['type'], values[f['name']], f.get('subtype')):
-                return
+                return False
         elif values[f['name']] is not None:
-            return
+            return False
     seen_absent = False
     for f in fields:   # prefix-closed optional tail
         if f.get('optional') and ('if_true' not in f or values.get(f['if_true'])) and \
@@ -257,7 +277,18 @@ def run_msg_case(case, res: CaseResult):
             if values[f['name']] is None:
                 seen_absent = True
             elif seen_absent:
-                return
+                return False
+    return True
+
+
+def run_msg_case(case, res: CaseResult):
+    import struct
+    key, values = case['key'], case['values']
+    if not _values_in_domain(key, values):
+        return
+    m = wire_ref.BY_KEY[key]
+    group, name, kind = key.split(':')
+    fields = m['fields']
     res.label('group:' + group)
     try:
         obj = msgbridge.to_obj(key, values)
@@ -552,6 +583,679 @@ def _stream_roundtrip(group, obj, data, okey, mode):
     return loop.run_until_complete(main())
 
 
+# ---------------------------------------------------------------------------
+# (10) 'wire' tier: frames on the wire of a REAL connection under write back pressure.
+#
+# A real ServerConnection / PeerConnection (plain, obfuscated) is connected over the in-memory TCP layer to a
+# scripted Endpoint. Its transport applies back pressure (drain() of every first write suspends for `drain` ms, or
+# for ever = 'block'). 1..4 sender tasks put 2..5 messages on that one connection (at least one frame is larger than
+# 64 KiB): sequentially (send_message), concurrently (asyncio.gather of send_message calls the way
+# Network.send_peer_messages does it, queue_message, queue_messages, several tasks), and with a sender that is
+# cancelled / given up by asyncio.wait_for k loop iterations / ms after it started, after which the connection is
+# used again. What the Endpoint received is cut into frames by the length prefix only (independent of the library)
+# and every frame has to be the reference encoding of one of the messages.
+
+WIRE_CONNS = ('server', 'peer', 'peer-obf')
+WIRE_HOST, WIRE_PORT = '30.0.0.1', 2242
+WIRE_BIG = 64 * 1024            # 'big': the frame does not fit in 64 KiB
+WIRE_MAX_N = {'server': 1_100_000, 'peer': 1_100_000, 'peer-obf': 240_000}   # (obfuscation is per byte in Python)
+WIRE_MAX_FILES = 6000
+WIRE_MAX_MSGS = 6
+WIRE_KINDS = {'server': ('chat', 'search', 'status', 'ping', 'raw', 'gen'),
+              'peer': ('userinfo', 'shares', 'queue', 'inforeq', 'raw', 'gen')}
+WIRE_VIAS = ('send', 'gather', 'queue', 'queues')
+WIRE_GEN_KEYS = {'server': [k for k in KEYS if k.startswith('server:') and k.endswith(':Request')],
+                 'peer': [k for k in KEYS if k.startswith('peer:')]}
+
+
+def _wire_blob(seed: int, n: int) -> bytes:
+    """n deterministic incompressible bytes."""
+    import hashlib
+    return hashlib.shake_128(b'c01-wire-%d' % seed).digest(n) if n > 0 else b''
+
+
+def _wire_text(seed: int, n: int) -> str:
+    text = _wire_blob(seed, n // 2 + 1).hex()[:n]
+    if seed % 2 and n >= 8:
+        text = 'Zo\xeb 漢\U0001F600 ' + text[7:]
+    return text
+
+
+def _wire_expand(conn, d, idx):
+    """Message descriptor -> {'key', 'values'} | {'raw': frame bytes} | None (not a descriptor of this connection).
+    The index of the message within the case is part of the value: all non-empty fixed messages of a case differ."""
+    import struct
+    if not isinstance(d, dict):
+        return None
+    group = 'server' if conn == 'server' else 'peer'
+    k = d.get('k')
+    if k not in WIRE_KINDS[group]:
+        return None
+    n, s = d.get('n', 0), d.get('s', 0)
+    if isinstance(n, bool) or not isinstance(n, int) or isinstance(s, bool) or not isinstance(s, int):
+        return None
+    n = max(0, min(n, WIRE_MAX_N[conn]))
+    s = abs(s) % 100000
+    if k == 'gen':
+        key, values = d.get('key'), d.get('values')
+        if key not in WIRE_GEN_KEYS[group] or not _values_in_domain(key, values):
+            return None
+        return {'key': key, 'values': values}
+    if k == 'raw':
+        # send_message(bytes): the caller hands over a complete frame
+        body = struct.pack('<I', 0xF000 + idx) + _wire_blob(s, n)
+        return {'raw': struct.pack('<I', len(body)) + body}
+    if k == 'chat':
+        return {'key': 'server:RoomChatMessage:Request', 'values': {'room': 'room%d' % idx, 'message': _wire_text(s, n)}}
+    if k == 'search':
+        return {'key': 'server:FileSearch:Request', 'values': {'ticket': 1000 + idx, 'query': _wire_text(s, n)}}
+    if k == 'status':
+        return {'key': 'server:SetStatus:Request', 'values': {'status': idx}}
+    if k == 'ping':
+        return {'key': 'server:Ping:Request', 'values': {}}
+    if k == 'userinfo':
+        return {'key': 'peer:PeerUserInfoReply:Request', 'values': {
+            'description': 'd%d' % s, 'has_picture': True, 'picture': {'$b': _wire_blob(s, n).hex()},
+            'upload_slots': idx, 'queue_size': s, 'has_slots_free': bool(s % 2),
+            'upload_permissions': (s % 4) if s % 3 else None}}
+    if k == 'shares':
+        nfiles = min(n, WIRE_MAX_FILES)
+        names = _wire_blob(s, 16 * nfiles).hex()
+        dirs = []
+        for i in range(0, nfiles, 40):
+            files = [{'unknown': 1, 'filename': names[32 * j:32 * j + 32] + '.mp3', 'filesize': 1000 + j,
+                      'extension': 'mp3', 'attributes': [{'key': 0, 'value': 320}, {'key': 1, 'value': j % 600}]}
+                     for j in range(i, min(i + 40, nfiles))]
+            dirs.append({'name': 'music\\%d\\%d' % (idx, i), 'files': files})
+        return {'key': 'peer:PeerSharesReply:Request',
+                'values': {'directories': dirs, 'unknown': idx, 'locked_directories': [] if s % 2 else None}}
+    if k == 'queue':
+        return {'key': 'peer:PeerPlaceInQueueReply:Request',
+                'values': {'filename': 'music\\' + _wire_text(s, min(n, 2000)), 'place': idx}}
+    if k == 'inforeq':
+        return {'key': 'peer:PeerUserInfoRequest:Request', 'values': {}}
+    return None
+
+
+_REF_DEOBF_CHECKED = False
+
+
+def _ref_deobf(key4: bytes, data: bytes) -> bytes:
+    """Fast form of the reference de-obfuscation (wire_ref.obf_xor walks byte by byte): the reference key stream of
+    one 4-byte key has a period of 32 words (a 32-bit rotation by one bit per word), so it is taken once from
+    wire_ref and XOR-ed as one big integer. Checked against wire_ref.obf_decode on first use."""
+    global _REF_DEOBF_CHECKED
+
+    def fast(k, d):
+        n = len(d)
+        if not n:
+            return b''
+        ks = wire_ref.obf_xor(k, bytes(128))
+        stream = (ks * (n // 128 + 1))[:n]
+        return (int.from_bytes(d, 'little') ^ int.from_bytes(stream, 'little')).to_bytes(n, 'little')
+
+    if not _REF_DEOBF_CHECKED:
+        probe = bytes((i * 37 + 11) % 256 for i in range(391))
+        for k in (b'\x01\x00\x00\x80', b'\x9a\xbc\xde\xf0', b'\xff\xff\xff\xff'):
+            if fast(k, probe) != wire_ref.obf_decode(k + probe):
+                raise AssertionError('fast reference de-obfuscation disagrees with wire_ref')
+        _REF_DEOBF_CHECKED = True
+    return fast(key4, data)
+
+
+def _lcp(a: bytes, b: bytes) -> int:
+    """Length of the longest common prefix."""
+    n = min(len(a), len(b))
+    if a[:n] == b[:n]:
+        return n
+    lo, hi = 0, n
+    while lo < hi:
+        mid = (lo + hi + 1) // 2
+        if a[:mid] == b[:mid]:
+            lo = mid
+        else:
+            hi = mid - 1
+    return lo
+
+
+def _wire_wait_spec(spec, default):
+    """['steps', k] | ['ms', x] clamped into the sound domain."""
+    if not (isinstance(spec, list) and len(spec) == 2 and spec[0] in ('steps', 'ms')):
+        return default
+    unit, v = spec
+    if isinstance(v, bool) or not isinstance(v, (int, float)) or v != v:
+        return default
+    if unit == 'steps':
+        return ['steps', max(0, min(int(v), 60))]
+    return ['ms', max(0.0, min(float(v), 20000.0))]
+
+
+def run_wire_case(case, res: CaseResult):
+    import asyncio
+    import struct
+    from vfw import simloop, simnet
+    from aioslsk.exceptions import ConnectionWriteError
+    from aioslsk.network.connection import ConnectionState, PeerConnection, PeerConnectionState, ServerConnection
+
+    conn_kind = case.get('conn')
+    if conn_kind not in WIRE_CONNS:
+        return
+    obf = conn_kind == 'peer-obf'
+    block = case.get('block') is True
+    drain = case.get('drain', 0)
+    if isinstance(drain, bool) or not isinstance(drain, (int, float)) or drain != drain or drain <= 0:
+        drain = 0.0
+    else:
+        drain = max(0.5, min(float(drain), 200.0))      # ms
+    senders_doc = case.get('senders')
+    if not isinstance(senders_doc, list):
+        return
+
+    # -- expand the documents --------------------------------------------------------------------------------
+    class Entry:
+        pass
+
+    entries = []
+    senders = []
+    for sd in senders_doc[:4]:
+        if not isinstance(sd, dict) or sd.get('via') not in WIRE_VIAS or not isinstance(sd.get('msgs'), list):
+            continue
+        mine = []
+        for d in sd['msgs']:
+            if len(entries) >= WIRE_MAX_MSGS:
+                break
+            x = _wire_expand(conn_kind, d, len(entries))
+            if x is None:
+                continue
+            e = Entry()
+            e.idx, e.sender, e.desc = len(entries), len(senders), d.get('k')
+            if 'raw' in x:
+                e.key, e.payload, e.compressed = 'raw-bytes', x['raw'], False
+                e.ref = x['raw']
+            else:
+                e.key = x['key']
+                try:
+                    e.payload = msgbridge.to_obj(e.key, x['values'])
+                except Exception as exc:
+                    res.violate(f'C01/construct:{e.key}:{type(exc).__name__}', repr(exc))
+                    return
+                e.compressed = bool(wire_ref.BY_KEY[e.key]['compressed'])
+                if e.compressed:
+                    e.ref = None
+                    e.ref_code = wire_ref.encode_code(e.key)
+                    e.ref_payload = wire_ref.encode_payload(e.key, x['values'])
+                else:
+                    e.ref = wire_ref.encode(e.key, x['values'])
+            e.called = False
+            e.outcome = 'not-called'
+            e.open_at_call = e.open_at_return = False
+            e.overlapped = False
+            e.exc = None
+            e.task = None
+            entries.append(e)
+            mine.append(e)
+        if not mine:
+            continue
+        cancel = sd.get('cancel')
+        how = sd.get('how') if sd.get('how') in ('cancel', 'wait_for') else 'cancel'
+        if cancel is not None:
+            cancel = _wire_wait_spec(cancel, None)
+            if cancel is not None and how == 'wait_for' and cancel[0] != 'ms':
+                how = 'cancel'
+        senders.append({'at': _wire_wait_spec(sd.get('at'), ['steps', 0]), 'via': sd['via'], 'msgs': mine,
+                        'cancel': cancel, 'how': how})
+    if len(entries) < 2:
+        return
+
+    probe = Entry()
+    probe.idx, probe.sender, probe.desc = len(entries), len(senders), 'probe'
+    if conn_kind == 'server':
+        probe.key, pv = 'server:GetUserStatus:Request', {'username': 'probeé'}
+    else:
+        probe.key, pv = 'peer:PeerPlaceInQueueRequest:Request', {'filename': 'probe\\é.mp3'}
+    probe.payload = msgbridge.to_obj(probe.key, pv)
+    probe.compressed, probe.ref = False, wire_ref.encode(probe.key, pv)
+    probe.called, probe.outcome, probe.open_at_call, probe.open_at_return = False, 'not-called', False, False
+    probe.overlapped, probe.exc, probe.task = False, None, None
+
+    state = {'inflight': 0, 'paused_until': None, 'writes': 0, 'write_under_pressure': False}
+
+    async def main(loop):
+        net = simnet.SimNet(loop).install()
+        eps = []
+        net.remote_listeners[(WIRE_HOST, WIRE_PORT)] = simnet.Listener('accept', 0.001, eps.append, 0.001)
+        stub = _RecNet()
+        if conn_kind == 'server':
+            conn = ServerConnection(WIRE_HOST, WIRE_PORT, stub)
+        else:
+            conn = PeerConnection(WIRE_HOST, WIRE_PORT, stub, obfuscated=obf, username='remote', connection_type='P')
+        await conn.connect()
+        if conn_kind == 'server':
+            conn.start_reader_task()
+        else:
+            conn.set_connection_state(PeerConnectionState.ESTABLISHED)
+        ep = eps[0]
+        tr = conn._writer.transport
+        if block:
+            tr.block_writes = True
+        elif drain:
+            tr.drain_delay = drain / 1000.0
+
+        def tap(link, side, data):      # (labels only) a write that meets a transport that is applying back pressure
+            if side != 0:
+                return
+            state['writes'] += 1
+            now = loop.time()
+            if state['paused_until'] is not None and now < state['paused_until'] - 1e-9:
+                state['write_under_pressure'] = True
+            elif block:
+                state['paused_until'] = float('inf')
+            elif drain:
+                state['paused_until'] = now + drain / 1000.0
+        ep.link.tap = tap
+
+        async def wait(spec):
+            if spec[0] == 'steps':
+                await simloop.step(spec[1])
+            elif spec[1] > 0:
+                await asyncio.sleep(spec[1] / 1000.0)
+
+        def is_open():
+            return conn.state == ConnectionState.CONNECTED
+
+        async def one(e):
+            e.called = True
+            e.open_at_call = is_open()
+            e.overlapped = state['inflight'] > 0
+            e.outcome = 'pending'
+            state['inflight'] += 1
+            try:
+                await conn.send_message(e.payload)
+            except asyncio.CancelledError:
+                e.outcome = 'cancelled'
+                raise
+            except Exception as exc:
+                e.outcome = 'raised'
+                e.exc = exc
+                raise
+            else:
+                e.outcome = 'ok'
+                e.open_at_return = is_open()
+            finally:
+                state['inflight'] -= 1
+
+        async def work(s):
+            via, msgs = s['via'], s['msgs']
+            if via == 'send':
+                for e in msgs:
+                    await one(e)
+            elif via == 'gather':       # Network.send_peer_messages / send_server_messages
+                await asyncio.gather(*[one(e) for e in msgs])
+            else:
+                for e in msgs:
+                    e.called = True
+                    e.open_at_call = is_open()
+                    e.overlapped = state['inflight'] > 0
+                    e.outcome = 'pending'
+                if via == 'queue':
+                    for e in msgs:
+                        e.task = conn.queue_message(e.payload)
+                else:
+                    for e, t in zip(msgs, conn.queue_messages(*[e.payload for e in msgs])):
+                        e.task = t
+                await asyncio.gather(*[e.task for e in msgs])
+
+        async def sender(s):
+            await wait(s['at'])
+            task = asyncio.ensure_future(work(s))
+            if s['cancel'] is not None:
+                if s['how'] == 'wait_for':
+                    try:
+                        await asyncio.wait_for(task, max(s['cancel'][1], 0.001) / 1000.0)
+                    except (asyncio.TimeoutError, Exception):
+                        pass
+                else:
+                    await wait(s['cancel'])
+                    task.cancel()
+            await asyncio.gather(task, return_exceptions=True)
+
+        tasks = [asyncio.ensure_future(sender(s)) for s in senders]
+        await asyncio.gather(*tasks, return_exceptions=True)
+        # queued messages that outlive their (cancelled / failed) sender
+        left = [e.task for e in entries if e.task is not None and not e.task.done()]
+        if left:
+            await asyncio.wait(left, timeout=15.0)
+        for e in entries:
+            t = e.task
+            if t is None:
+                continue
+            if not t.done():
+                e.outcome = 'pending'
+            elif t.cancelled():
+                e.outcome = 'cancelled'
+            elif t.exception() is not None:
+                e.outcome, e.exc = 'raised', t.exception()
+            else:
+                e.outcome, e.open_at_return = 'ok', is_open()
+        # the connection is used once more
+        if is_open():
+            try:
+                await one(probe)
+            except Exception:
+                pass
+        await asyncio.sleep(0.01)
+        stream = bytes(ep.inbuf)
+        lib_closed = bool(ep.peer_closed) or not is_open()
+        await conn.disconnect()
+        await asyncio.sleep(0.01)
+        return stream, lib_closed
+
+    try:
+        (stream, lib_closed), loop_errors = simloop.run_case_on_loop(main, max_iterations=400_000)
+    finally:
+        simnet.SimNet.uninstall()
+
+    everything = entries + [probe]
+    where = f'conn={conn_kind} drain={"block" if block else drain}ms'
+
+    # -- labels ---------------------------------------------------------------------------------------------
+    res.label('wire', 'wire:conn=' + conn_kind,
+              'wire:drain=' + ('block' if block else ('none' if not drain else ('<=2ms' if drain <= 2 else '>2ms'))))
+    for s in senders:
+        res.label('wire:via=' + s['via'])
+    if len(senders) > 1:
+        res.label('wire:senders>1')
+    if any(e.overlapped for e in everything):
+        res.label('wire:send-started-while-another-send-in-flight')
+    if state['write_under_pressure']:
+        res.label('wire:write-while-drain-suspended')
+    if any(e.outcome == 'cancelled' for e in entries):
+        res.label('wire:send-cancelled-in-flight')
+    if any(s['cancel'] is not None for s in senders):
+        res.label('wire:cancel-planned:' + '+'.join(sorted({s['how'] for s in senders if s['cancel'] is not None})))
+    if lib_closed:
+        res.label('wire:connection-closed-by-library')
+
+    # -- exceptions -----------------------------------------------------------------------------------------
+    for e in everything:
+        if e.outcome == 'raised':
+            if isinstance(e.exc, ConnectionWriteError) and block:
+                res.label('wire:write-timeout')     # documented: the write timed out, the connection is closed
+                continue
+            res.violate(f'C01/wire:unexpected-exception:{type(e.exc).__name__}@send_message',
+                        f'{where}: message #{e.idx} {e.key}: {e.exc!r:.300}')
+        elif e.outcome == 'pending' and not block:
+            res.violate('C01/wire:send-never-completed', f'{where}: message #{e.idx} {e.key}')
+    for err in loop_errors:
+        res.violate(f'C01/wire:background-exception:{err.get("exc_type")}', f'{where}: {err}')
+
+    # -- cut the byte stream into frames by the length prefix only ------------------------------------------------
+    def lib_plain(e):      # (diagnosis and duplicate detection only; zlib output is deterministic)
+        if getattr(e, 'lib', None) is None:
+            if isinstance(e.payload, (bytes, bytearray)):
+                e.lib = bytes(e.payload)
+            else:
+                try:
+                    e.lib = e.payload.serialize()
+                except Exception:
+                    e.lib = b''
+        return e.lib
+
+    def matches(plain, e):
+        if not e.compressed:
+            return plain == e.ref
+        if len(plain) < 8 or plain[4:8] != e.ref_code:
+            return False
+        try:
+            return zlib.decompress(plain[8:]) == e.ref_payload
+        except zlib.error:
+            return False
+
+    hdr = 8 if obf else 4
+    pos = 0
+    consumed = {}          # entry idx -> frame ordinal
+    order = []
+    big_frames = 0
+    failure = None         # (pos, plain bytes from pos on decoded with the key found at pos)
+    tail = 0
+    while pos < len(stream):
+        rest = len(stream) - pos
+        if rest < hdr:
+            tail = rest
+            break
+        if obf:
+            key4 = stream[pos:pos + 4]
+            (n,) = struct.unpack('<I', _ref_deobf(key4, stream[pos + 4:pos + 8]))
+        else:
+            (n,) = struct.unpack_from('<I', stream, pos)
+        if rest < hdr + n:
+            tail = rest
+            break
+        frame = stream[pos:pos + hdr + n]
+        plain = _ref_deobf(frame[:4], frame[4:]) if obf else frame
+        hit = None
+        for e in everything:
+            if e.idx not in consumed and matches(plain, e):
+                # identical messages are interchangeable: take the one that is next in line for its sender
+                if hit is None:
+                    hit = e
+        if hit is None:
+            failure = pos
+            break
+        consumed[hit.idx] = len(order)
+        order.append(hit.idx)
+        if len(frame) > WIRE_BIG:
+            big_frames += 1
+        pos += hdr + n
+    if tail and not lib_closed:
+        failure = pos
+    elif tail:
+        # the library closed the connection (write timeout): a truncated last frame is what TCP gives then, but it has
+        # to be the beginning of ONE message
+        raw_tail = stream[pos:]
+        plain_tail = (_ref_deobf(raw_tail[:4], raw_tail[4:]) if obf else raw_tail) if len(raw_tail) > (4 if obf else 0) else b''
+        if any(e.idx not in consumed and lib_plain(e)[:len(plain_tail)] == plain_tail for e in everything):
+            res.label('wire:truncated-tail-then-eof')
+        else:
+            failure = pos
+
+    if failure is not None:
+        raw_rest = stream[failure:]
+        plain_rest = (_ref_deobf(raw_rest[:4], raw_rest[4:]) if obf else raw_rest) if len(raw_rest) >= hdr else b''
+        best, best_l, best_len = None, -1, 0
+        for e in sorted(everything, key=lambda e: (e.idx in consumed, e.idx)):
+            lp = lib_plain(e)
+            l = _lcp(plain_rest, lp)
+            if l > best_l:
+                best, best_l, best_len = e, l, len(lp)
+        if best is not None and best_l >= 8 and best_l < best_len:
+            # the frame of `best` starts here but other bytes (or nothing) follow before it is complete
+            cause = 'cancelled-send-then-connection-reused' if best.outcome == 'cancelled' else 'concurrent-senders'
+            follows = len(plain_rest) - best_l
+            ending = 'connection that the library closed afterwards' if lib_closed else 'still open connection'
+            res.violate(f'C01/wire:frame-not-contiguous:{cause}',
+                        f'{where}: at stream offset {failure} the frame of message #{best.idx} ({best.key}, '
+                        f'{best_len} bytes, send outcome {best.outcome}) is on the wire for its first {best_l} bytes '
+                        f'only, then {follows} other bytes follow on the {ending}: the length prefix '
+                        f'({best_len - 4}) is not the number of bytes that belong to the frame; {len(order)} whole '
+                        f'frames before it; via={[s["via"] for s in senders]}')
+        elif best is not None and best_l == best_len and best_len >= 8:
+            if best.idx in consumed:
+                res.violate('C01/wire:message-on-the-wire-twice',
+                            f'{where}: message #{best.idx} ({best.key}) again at stream offset {failure}')
+            else:
+                res.violate(f'C01/wire:frame-differs-from-reference:{best.key}',
+                            f'{where}: frame at stream offset {failure} is what serialize() gives but not what the '
+                            f'pinned layout prescribes')
+        else:
+            res.violate('C01/wire:unknown-bytes-on-the-wire',
+                        f'{where}: at stream offset {failure} ({len(order)} whole frames before): '
+                        f'{plain_rest[:24].hex()} matches none of the sent messages '
+                        f'(closest #{getattr(best, "idx", None)}, {best_l} bytes in common)')
+    else:
+        # every frame is one of the messages; now: which ones
+        for e in everything:
+            confirmed = e.outcome == 'ok' and e.open_at_call and e.open_at_return
+            if confirmed and e.idx not in consumed:
+                via = 'probe' if e is probe else senders[e.sender]['via']
+                res.violate(f'C01/wire:message-missing:{via}',
+                            f'{where}: message #{e.idx} ({e.key}) was sent without error on an open connection but '
+                            f'is not on the wire; frames: {order}')
+            if not e.called and e.idx in consumed:
+                res.violate('C01/wire:unsent-message-on-the-wire', f'{where}: message #{e.idx} ({e.key})')
+            if e.outcome == 'cancelled' and e.called:
+                res.label('wire:cancelled-send:' + ('whole-frame-on-wire' if e.idx in consumed else 'nothing-on-wire'))
+        refs = [lib_plain(e) for e in everything]
+        if len(set(refs)) == len(refs):
+            for s in senders:
+                if s['via'] != 'send':
+                    continue
+                seq = [consumed[e.idx] for e in s['msgs'] if e.idx in consumed]
+                if seq != sorted(seq):
+                    res.violate('C01/wire:order-within-one-task',
+                                f'{where}: messages {[e.idx for e in s["msgs"]]} sent one after the other by one task '
+                                f'are on the wire as {order}')
+        else:
+            res.label('wire:identical-messages')
+    res.label('wire:big-frames=%d' % min(big_frames, 3))
+    res.nontrivial = big_frames >= 1 and len(order) >= 2
+
+
+# -- generators of wire cases ----------------------------------------------------------------------------------
+
+_WIRE_BIG_KINDS = {'server': ('chat', 'search', 'raw'), 'peer': ('userinfo', 'shares', 'raw'),
+                   'peer-obf': ('userinfo', 'shares', 'raw')}
+_WIRE_SMALL = {'server': ({'k': 'status'}, {'k': 'ping'}, {'k': 'search', 'n': 24}, {'k': 'chat', 'n': 300},
+                          {'k': 'raw', 'n': 5}),
+               'peer': ({'k': 'queue', 'n': 30}, {'k': 'inforeq'}, {'k': 'userinfo', 'n': 200}, {'k': 'shares', 'n': 3},
+                        {'k': 'raw', 'n': 5})}
+_WIRE_SIZES = {'server': (66_000, 140_000, 400_000, 1_000_000), 'peer': (66_000, 140_000, 400_000, 1_000_000),
+               'peer-obf': (66_000, 100_000, 140_000, 230_000)}
+_WIRE_FILES = (2600, 4000)
+
+
+def _wire_big_desc(conn, i):
+    kind = _WIRE_BIG_KINDS[conn][i % 3]
+    if kind == 'shares':
+        return {'k': 'shares', 'n': _WIRE_FILES[(i // 3) % 2], 's': i}
+    return {'k': kind, 'n': _WIRE_SIZES[conn][(i // 3) % 4], 's': i}
+
+
+def _wire_grid():
+    """Deterministic grid: connection x back pressure x sending pattern; the big message rotates through the classes
+    and sizes."""
+    cases = []
+    n = 0
+    for conn in WIRE_CONNS:
+        group = 'server' if conn == 'server' else 'peer'
+        smalls = _WIRE_SMALL[group]
+        for drain in (0, 1, 20):
+            d = max(drain, 1)
+            patterns = [
+                # (a) one task, one after the other
+                [{'via': 'send', 'msgs': ['s', 'B', 's']}],
+                # (b) concurrently: gather (= Network.send_peer_messages), queue_messages, queue_message, several tasks
+                [{'via': 'gather', 'msgs': ['B', 's']}],
+                [{'via': 'gather', 'msgs': ['s', 'B', 's', 'B']}],
+                [{'via': 'queues', 'msgs': ['B', 's', 's']}],
+                [{'via': 'queue', 'msgs': ['s', 'B']}, {'via': 'send', 'msgs': ['s'], 'at': ['steps', 2]}],
+                [{'via': 'send', 'msgs': ['B']}, {'via': 'send', 'msgs': ['s', 's'], 'at': ['steps', 1 + n % 3]}],
+                [{'via': 'send', 'msgs': ['B']}, {'via': 'send', 'msgs': ['s'], 'at': ['ms', d * 1.5]},
+                 {'via': 'queue', 'msgs': ['s'], 'at': ['ms', d * 2.5]}],
+                [{'via': 'send', 'msgs': ['B']}, {'via': 'send', 'msgs': ['B'], 'at': ['ms', d * 0.5]}],
+                # (c) a sender gives up / is cancelled in mid-send, the connection is used again
+                [{'via': 'send', 'msgs': ['B'], 'cancel': ['steps', 2]},
+                 {'via': 'send', 'msgs': ['s'], 'at': ['ms', d * 3 + 1]}],
+                [{'via': 'send', 'msgs': ['B', 's'], 'cancel': ['ms', d * 1.5]},
+                 {'via': 'send', 'msgs': ['s'], 'at': ['ms', d * 4]}],
+                [{'via': 'send', 'msgs': ['B'], 'cancel': ['ms', d * 0.5], 'how': 'wait_for'},
+                 {'via': 'queue', 'msgs': ['s'], 'at': ['ms', d * 2]}],
+                [{'via': 'queues', 'msgs': ['B', 's'], 'cancel': ['ms', d * 1.5]}],
+                [{'via': 'gather', 'msgs': ['B', 's'], 'cancel': ['steps', 3]},
+                 {'via': 'send', 'msgs': ['s'], 'at': ['steps', 5]}],
+                [{'via': 'send', 'msgs': ['s', 'B'], 'cancel': ['ms', d * 1.5]}],
+            ]
+            for pattern in patterns:
+                senders = []
+                for sd in pattern:
+                    sd = dict(sd)
+                    msgs = []
+                    for m in sd['msgs']:
+                        n += 1
+                        msgs.append(_wire_big_desc(conn, n) if m == 'B' else dict(smalls[n % len(smalls)], s=n))
+                    sd['msgs'] = msgs
+                    senders.append(sd)
+                cases.append({'t': 'wire', 'conn': conn, 'drain': drain, 'senders': senders})
+        # the write never drains: the library's own write timeout (10 s) closes the connection
+        for pattern in (
+                [{'via': 'send', 'msgs': ['B']}, {'via': 'send', 'msgs': ['s'], 'at': ['ms', 1]},
+                 {'via': 'send', 'msgs': ['s'], 'at': ['ms', 11000]}],
+                [{'via': 'queues', 'msgs': ['s', 'B']}, {'via': 'send', 'msgs': ['s'], 'at': ['ms', 9999]}],
+                [{'via': 'send', 'msgs': ['B'], 'cancel': ['ms', 500]}, {'via': 'send', 'msgs': ['s'], 'at': ['ms', 700]}]):
+            senders = []
+            for sd in pattern:
+                sd = dict(sd)
+                msgs = []
+                for m in sd['msgs']:
+                    n += 1
+                    msgs.append(_wire_big_desc(conn, n) if m == 'B' else dict(smalls[n % len(smalls)], s=n))
+                sd['msgs'] = msgs
+                senders.append(sd)
+            cases.append({'t': 'wire', 'conn': conn, 'block': True, 'senders': senders})
+    return cases
+
+
+@st.composite
+def wire_case(draw):
+    conn = draw(st.sampled_from(WIRE_CONNS))
+    group = 'server' if conn == 'server' else 'peer'
+    block = draw(st.sampled_from([False] * 13 + [True]))
+    drain = draw(st.sampled_from([0, 0.5, 1, 1, 2, 5, 20, 50]))
+    d = max(drain, 1)
+    nmsgs = draw(st.integers(2, 5))
+    big_at = draw(st.integers(0, nmsgs - 1))
+    cap = WIRE_MAX_N[conn]
+    msgs = []
+    for i in range(nmsgs):
+        if i == big_at or draw(st.sampled_from([False] * 5 + [True])):
+            kind = draw(st.sampled_from(_WIRE_BIG_KINDS[conn]))
+            if kind == 'shares':
+                size = draw(st.integers(2500, 5000))
+            else:
+                size = draw(st.sampled_from([65_540, 66_000, 100_000, 131_080, 200_000]) |
+                            st.integers(65_600, min(cap, 300_000)) | st.integers(65_600, cap))
+            msgs.append({'k': kind, 'n': size, 's': draw(st.integers(0, 999))})
+        elif draw(st.booleans()):
+            key = draw(st.sampled_from(WIRE_GEN_KEYS[group]))
+            mc = draw(message_case(key))
+            msgs.append({'k': 'gen', 'key': key, 'values': mc['values']})
+        else:
+            msgs.append(dict(draw(st.sampled_from(_WIRE_SMALL[group])), s=draw(st.integers(0, 999))))
+    nsenders = draw(st.integers(1, min(3, nmsgs)))
+    owner = [draw(st.integers(0, nsenders - 1)) for _ in msgs]
+    in_ms = st.tuples(st.just('ms'), st.sampled_from([0.25, 0.5, 1, 1.5, 2.5, 5, 17]).map(lambda f: f * d))
+    offsets = st.one_of(st.tuples(st.just('steps'), st.integers(0, 6)), in_ms)
+    cancel_offsets = st.one_of(st.tuples(st.just('steps'), st.integers(1, 6)), in_ms)
+    senders = []
+    for j in range(nsenders):
+        mine = [m for m, o in zip(msgs, owner) if o == j]
+        if not mine:
+            continue
+        sd = {'via': draw(st.sampled_from(WIRE_VIAS)), 'msgs': mine}
+        if senders:
+            sd['at'] = list(draw(offsets))
+        if draw(st.sampled_from([False, False, True])):
+            sd['cancel'] = list(draw(cancel_offsets))
+            sd['how'] = draw(st.sampled_from(['cancel', 'cancel', 'wait_for']))
+        senders.append(sd)
+    case = {'t': 'wire', 'conn': conn, 'senders': senders}
+    if block:
+        case['block'] = True
+    else:
+        case['drain'] = drain
+    return case
+
+
 def run_case(case) -> CaseResult:
     res = CaseResult()
     if case.get('t') == 'raw':
@@ -561,6 +1265,8 @@ def run_case(case) -> CaseResult:
         run_obf_case(case, res)
     elif case.get('t') == 'msg' and isinstance(case.get('values'), dict):
         run_msg_case(case, res)
+    elif case.get('t') == 'wire':
+        run_wire_case(case, res)
     return res
 
 
@@ -616,6 +1322,8 @@ def run_shard(ctx):
         ctx.explore(message_case(key), per_class, salt=i)
     ctx.explore(obf_case(), n_obf, salt=9999)
     ctx.extra['classes_covered'] = len(mine)
+    ctx.enumerate(_wire_grid())
+    ctx.explore(wire_case(), 20 if ctx.tier == 'quick' else 600, salt=7777)
     _replay_vectors_raw(ctx)
     if ctx.tier == 'thorough' and ctx.shard < len(FUZZ_TARGETS):
         _fuzz_tier(ctx)
@@ -692,12 +1400,16 @@ def _fuzz_tier(ctx):
 
 MANIFEST_ENTRY = {
     'technique': 'property-based testing (Hypothesis): layout-driven value generation per message class, round-trip + '
-                 'differential against an independent reference codec pinned to the protocol layout',
+                 'differential against an independent reference codec pinned to the protocol layout; generated send '
+                 'schedules (sequential / concurrent / cancelled senders, write back pressure) on a real connection '
+                 'over a simulated TCP link with an independent re-framing of the received byte stream',
     'level_text': 'Generated-input exploration: every pinned message class is exercised with boundary-biased values; '
                   'each case is checked against the round trip, the pinned byte layout (independent struct-based '
-                  'reference encoder/decoder), the group dispatcher and the connection-level obfuscated path. No proof: '
+                  'reference encoder/decoder), the group dispatcher and the connection-level obfuscated path; frames '
+                  'larger than 64 KiB are sent through real connections under write back pressure by concurrent and '
+                  'cancelled senders and the received byte stream must be a sequence of whole reference frames. No proof: '
                   'absence of a violation is a statement about the generated set reported in the evidence.',
     'level_note': 'Trusted base: pinned/layout.json (validated at setup against 299 hand-written test vectors and 3 '
-                  'obfuscation vectors), the reference codec vfw/wire_ref.py, Hypothesis. Compressed payloads are '
-                  'compared after inflate.',
+                  'obfuscation vectors), the reference codec vfw/wire_ref.py, Hypothesis, the virtual loop and in-memory '
+                  'TCP layer (vfw/simloop.py, vfw/simnet.py). Compressed payloads are compared after inflate.',
 }
